@@ -276,13 +276,28 @@ Proof.
   destruct b; cbn [map fold_left run]; apply IH.
 Qed.
 
-Lemma run_okf_run_ok pl ftr : forall ph sf R, run_okf pl ph sf R ftr = true -> run_ok pl ph R (oks ftr) = true.
+Lemma run_okf2_run_ok pl ftr : forall ph sf rif R, run_okf2 pl ph sf rif R ftr = true -> run_ok pl ph R (oks ftr) = true.
 Proof.
-  induction ftr as [|[o b] r IH]; intros ph sf R H; [reflexivity|]. unfold oks in *. cbn [run_okf snd fst] in H. cbn [filter snd].
+  induction ftr as [|[o b] r IH]; intros ph sf rif R H; [reflexivity|]. unfold oks in *. cbn [run_okf2 snd fst] in H. cbn [filter snd].
   destruct b; cbn [map fst run_ok].
   - destruct (step_ok pl ph R o) as [ph'|]; [|discriminate].
-    destruct (sf && match ph' with PhC => true | _ => false end); [discriminate|]. eapply IH, H.
+    destruct (sf && match ph' with PhC => true | _ => false end); [discriminate|].
+    destruct (rif && match ph' with PhC => true | _ => false end && is_rmp o); [discriminate|]. eapply IH, H.
   - eapply IH, H.
+Qed.
+
+Lemma run_okf_run_ok pl ftr ph sf R : run_okf pl ph sf R ftr = true -> run_ok pl ph R (oks ftr) = true.
+Proof. apply run_okf2_run_ok. Qed.
+
+(* after a failed removal of an obsolete index no old pack is removed in an accepted trace *)
+Lemma no_pack_removal_after_failed_index_removal pl ph sf R i p r :
+  run_okf2 pl ph sf false R ((RmI i, false) :: (RmP p, true) :: r) = true ->
+  exists q, step_ok pl ph R (RmP p) = Some q /\ q <> PhC.
+Proof.
+  cbn [run_okf2 snd fst is_rmi is_save orb]. rewrite orb_false_r.
+  destruct (step_ok pl ph R (RmP p)) as [q|]; [|discriminate].
+  intros H. exists q. split; [reflexivity|]. intros ->. cbn [is_rmp andb] in H.
+  destruct sf; discriminate.
 Qed.
 
 Lemma oks_firstn ftr : forall n, exists m, oks (firstn n ftr) = firstn m (oks ftr).
@@ -309,12 +324,12 @@ Qed.
    of an obsolete index, and no successful removal of a pack outside phase A *)
 Lemma no_index_removal_after_failed_save pl ph R i r : run_okf pl ph true R ((RmI i, true) :: r) = false.
 Proof.
-  cbn [run_okf step_ok snd fst]. destruct (enter_c pl ph R && memN i (obs pl)); reflexivity.
+  unfold run_okf. cbn [run_okf2 step_ok snd fst]. destruct (enter_c pl ph R && memN i (obs pl)); reflexivity.
 Qed.
 
 Lemma no_old_pack_removal_after_failed_save pl R p r : run_okf pl PhB true R ((RmP p, true) :: r) = false.
 Proof.
-  cbn [run_okf step_ok snd fst]. destruct (enter_c pl PhB R && memN p (rm pl) && negb (idx_names R p)); reflexivity.
+  unfold run_okf. cbn [run_okf2 step_ok snd fst]. destruct (enter_c pl PhB R && memN p (rm pl) && negb (idx_names R p)); reflexivity.
 Qed.
 
 (* the seeded defect in the abstract: the rewritten index (SaveI 3) fails, the obsolete indexes and the
@@ -326,6 +341,8 @@ Example c09_fault_nonvacuous :
                            (RmI 1, true); (RmI 2, true); (RmP 1, true); (RmP 2, true)] = false /\
   run_okf pl PhA false R0 [(SaveP 3 [1], true); (SaveI 2 [(3, 1)], true); (SaveI 3 [(3, 1)], false)] = true /\
   must_report [(SaveP 3 [1], true); (SaveI 3 [(3, 1)], false)] = true /\
+  (* the seeded defect C10-rewrite-remove-error-overwritten: RmI 1 fails, RmI 2 succeeds, packs removed: rejected *)
+  run_okf pl PhA false R0 [(SaveP 3 [1], true); (SaveI 3 [(3, 1)], true); (RmI 1, false); (RmI 2, true); (RmP 2, true)] = false /\
   (* a failed pack removal is tolerated *)
   run_okf pl PhA false R0 [(SaveP 3 [1], true); (SaveI 3 [(3, 1)], true); (RmI 1, true); (RmP 1, false); (RmP 2, true)] = true.
 Proof. vm_compute. repeat split. Qed.
